@@ -54,6 +54,14 @@ theorem C11.duration_guard_needed : ¬ fitsMs (4294967296 * nsPerMs) ∧ durFrom
 
 example : fitsS 4294967295000000000 ∧ fitsMs 4000000000000000 := by decide
 
+/-- ELAPSED TIMES: every value a `time.Duration` can hold - negative ones included - is canonical for a data point's elapsed
+    time: it survives unchanged (harness op `elapsed`; the message generator draws signed and extreme values) -/
+theorem C11.elapsed_roundtrip (d : Int) (h : fitsI64 d) : elapsedFromWire (elapsedToWire d) = d := by
+  simp only [fitsI64, elapsedFromWire, elapsedToWire, wrap64] at *; omega
+
+example : fitsI64 (-5) ∧ elapsedFromWire (elapsedToWire (-5)) = -5 := by
+  simp only [fitsI64, elapsedFromWire, elapsedToWire, wrap64]; omega
+
 /-- the codec wrappers recover: EncodeTo / DecodeFrom of both encodings start with a deferred recover that assigns the error result (regenerated fact) -/
 theorem C11.wrappers_recover :
     wrappers.length = 4 ∧ ∀ w ∈ wrappers, w.firstIsDeferredRecover = true ∧ w.assignsNamedError = true ∧ w.hasGoStmt = false := by decide
